@@ -149,6 +149,302 @@ Proof.
   rewrite Hg, (has_id_map g _ t Hg). split; [exact H1|apply IH; exact H2].
 Qed.
 
+(* ================= links: closed form of parseActions + applyParsedActions ================= *)
+
+Definition ctls_of (acts : list action) : list ctl :=
+  flat_map (fun a => match a with ACtl c => [c] | _ => [] end) acts.
+Definition disrs_of (acts : list action) : list disr :=
+  flat_map (fun a => match a with ADisr d => [d] | _ => [] end) acts.
+Definition flows_of (acts : list action) : list bytes :=
+  flat_map (fun a => match a with ASkipAfter m => [m] | _ => [] end) acts.
+Fixpoint status_of (acts : list action) (cur : N) : N :=
+  match acts with
+  | [] => cur
+  | AStatus n :: r => status_of r n
+  | _ :: r => status_of r cur
+  end.
+
+Definition mrg (d : option disr) (acts : list action) : list action :=
+  match d with None => acts | Some x => merge_defaults acts x end.
+
+(* the disruptive action(s) a written action list leaves in the rule: its last disruptive action o,
+   merged with the phase default d ("block" and "none" take the default) *)
+Definition eff_disr (d : option disr) (o : option disr) : list disr :=
+  match o, d with
+  | None, None => []
+  | None, Some x => [x]
+  | Some DBlock, Some x => [x]
+  | Some y, _ => [y]
+  end.
+
+Lemma fold_act_closed acts : forall l,
+  fold_left act_step acts l =
+  mkClink (cl_vars l) (cl_op l) (cl_nd l ++ ctls_of acts) (cl_disr l ++ disrs_of acts)
+          (cl_flow l ++ flows_of acts) (cl_tags l) (cl_msg l) (status_of acts (cl_status l)).
+Proof.
+  induction acts as [|a acts IH]; intro l.
+  - cbn. rewrite !app_nil_r. destruct l; reflexivity.
+  - cbn [fold_left]. rewrite IH.
+    destruct a; cbn [act_step cl_vars cl_op cl_nd cl_disr cl_flow cl_tags cl_msg cl_status
+                     ctls_of disrs_of flows_of flat_map status_of app];
+      rewrite <- ?app_assoc; reflexivity.
+Qed.
+
+Lemma fold_meta_closed acts : forall l,
+  fold_left meta_step acts l =
+  mkClink (cl_vars l) (cl_op l) (cl_nd l) (cl_disr l) (cl_flow l)
+          (cl_tags l ++ src_tags acts) (src_msg acts (cl_msg l)) (cl_status l).
+Proof.
+  induction acts as [|a acts IH]; intro l.
+  - cbn. rewrite app_nil_r. destruct l; reflexivity.
+  - cbn [fold_left]. rewrite IH.
+    destruct a; cbn [meta_step cl_vars cl_op cl_nd cl_disr cl_flow cl_tags cl_msg cl_status src_tags src_msg];
+      rewrite <- ?app_assoc; reflexivity.
+Qed.
+
+(* --- list algebra of the projections --- *)
+Lemma ctls_app a b : ctls_of (a ++ b) = ctls_of a ++ ctls_of b.
+Proof. apply flat_map_app. Qed.
+Lemma disrs_app a b : disrs_of (a ++ b) = disrs_of a ++ disrs_of b.
+Proof. apply flat_map_app. Qed.
+Lemma flows_app a b : flows_of (a ++ b) = flows_of a ++ flows_of b.
+Proof. apply flat_map_app. Qed.
+Lemma status_app a : forall b s, status_of (a ++ b) s = status_of b (status_of a s).
+Proof. induction a as [|x a IH]; intros b s; [reflexivity|]. destruct x; cbn [app status_of]; apply IH. Qed.
+Lemma tags_app a b : src_tags (a ++ b) = src_tags a ++ src_tags b.
+Proof. induction a as [|x a IH]; [reflexivity|]. destruct x; cbn [app src_tags]; rewrite ?IH; reflexivity. Qed.
+Lemma msg_app a : forall b m, src_msg (a ++ b) m = src_msg b (src_msg a m).
+Proof. induction a as [|x a IH]; intros b m; [reflexivity|]. destruct x; cbn [app src_msg]; apply IH. Qed.
+
+(* filtering out (some) disruptive actions changes only the disruptive projection *)
+Section FilterDisr.
+Variable p : action -> bool.
+Hypothesis p_keeps : forall a, is_disr a = false -> p a = true.
+
+Lemma ctls_filter a : ctls_of (filter p a) = ctls_of a.
+Proof.
+  induction a as [|x a IH]; [reflexivity|]. cbn [filter].
+  destruct (p x) eqn:E; cbn [ctls_of flat_map]; fold (ctls_of a); fold (ctls_of (filter p a)); rewrite IH; [reflexivity|].
+  destruct x; try (rewrite p_keeps in E by reflexivity; discriminate). reflexivity.
+Qed.
+Lemma flows_filter a : flows_of (filter p a) = flows_of a.
+Proof.
+  induction a as [|x a IH]; [reflexivity|]. cbn [filter].
+  destruct (p x) eqn:E; cbn [flows_of flat_map]; fold (flows_of a); fold (flows_of (filter p a)); rewrite IH; [reflexivity|].
+  destruct x; try (rewrite p_keeps in E by reflexivity; discriminate). reflexivity.
+Qed.
+Lemma status_filter a : forall s, status_of (filter p a) s = status_of a s.
+Proof.
+  induction a as [|x a IH]; intro s; [reflexivity|]. cbn [filter].
+  destruct (p x) eqn:E.
+  - destruct x; cbn [status_of]; apply IH.
+  - destruct x; try (rewrite p_keeps in E by reflexivity; discriminate). cbn [status_of]. apply IH.
+Qed.
+Lemma tags_filter a : src_tags (filter p a) = src_tags a.
+Proof.
+  induction a as [|x a IH]; [reflexivity|]. cbn [filter].
+  destruct (p x) eqn:E.
+  - destruct x; cbn [src_tags]; rewrite IH; reflexivity.
+  - destruct x; try (rewrite p_keeps in E by reflexivity; discriminate). cbn [src_tags]. apply IH.
+Qed.
+Lemma msg_filter a : forall m, src_msg (filter p a) m = src_msg a m.
+Proof.
+  induction a as [|x a IH]; intro m; [reflexivity|]. cbn [filter].
+  destruct (p x) eqn:E.
+  - destruct x; cbn [src_msg]; apply IH.
+  - destruct x; try (rewrite p_keeps in E by reflexivity; discriminate). cbn [src_msg]. apply IH.
+Qed.
+End FilterDisr.
+
+Definition nonblock (a : action) : bool := negb (is_block a).
+Definition nondisr (a : action) : bool := negb (is_disr a).
+
+Lemma nonblock_keeps a : is_disr a = false -> nonblock a = true.
+Proof. destruct a as [| | |[]| | |]; cbn; congruence. Qed.
+Lemma nondisr_keeps a : is_disr a = false -> nondisr a = true.
+Proof. unfold nondisr. intro H; rewrite H; reflexivity. Qed.
+
+Lemma disrs_nondisr a : disrs_of (filter nondisr a) = [].
+Proof.
+  induction a as [|x a IH]; [reflexivity|]. cbn [filter]. destruct x; cbn [nondisr is_disr negb disrs_of flat_map app]; exact IH.
+Qed.
+
+Lemma no_disr_filter_nondisr p a : existsb is_disr (filter p (filter nondisr a)) = false.
+Proof.
+  induction a as [|x a IH]; [reflexivity|]. cbn [filter].
+  destruct x; cbn [nondisr is_disr negb filter]; try exact IH; destruct (p _); cbn [existsb is_disr orb]; exact IH.
+Qed.
+
+Lemma no_disr_disrs p a : existsb is_disr a = false -> disrs_of (filter p a) = [].
+Proof.
+  induction a as [|x a IH]; intro H; [reflexivity|]. cbn [existsb] in H. apply orb_false_iff in H as [H1 H2].
+  cbn [filter]. destruct (p x); [|apply IH; exact H2].
+  destruct x; try discriminate; cbn [disrs_of flat_map app]; apply IH; exact H2.
+Qed.
+
+Lemma no_disr_disrs' a : existsb is_disr a = false -> disrs_of a = [].
+Proof. intro H. rewrite <- (filter_all (fun _ => true) a) by reflexivity. apply no_disr_disrs; exact H. Qed.
+
+Lemma no_disr_nonblockdisr a : existsb is_disr a = false -> existsb is_nonblock_disr a = false.
+Proof.
+  induction a as [|x a IH]; intro H; [reflexivity|]. cbn [existsb] in *. apply orb_false_iff in H as [H1 H2].
+  unfold is_nonblock_disr at 1. rewrite H1, (IH H2). reflexivity.
+Qed.
+
+(* --- the last disruptive action --- *)
+Lemma last_disr_app a : forall b c, last_disr (a ++ b) c = last_disr b (last_disr a c).
+Proof. induction a as [|x a IH]; intros b c; [reflexivity|]. destruct x; cbn [app last_disr]; apply IH. Qed.
+
+Lemma last_disr_none a : forall c, existsb is_disr a = false -> last_disr a c = c.
+Proof.
+  induction a as [|x a IH]; intros c H; [reflexivity|]. cbn [existsb] in H. apply orb_false_iff in H as [H1 H2].
+  destruct x; try discriminate; cbn [last_disr]; apply IH; exact H2.
+Qed.
+
+Lemma last_disr_nondisr a c : last_disr (filter nondisr a) c = c.
+Proof.
+  apply last_disr_none.
+  rewrite <- (filter_all (fun _ => true) (filter nondisr a)) by reflexivity. apply no_disr_filter_nondisr.
+Qed.
+
+Lemma last_disr_some a : existsb is_disr a = true ->
+  exists y, (forall c, last_disr a c = Some y) /\ In (ADisr y) a.
+Proof.
+  induction a as [|x a IH]; intro H; [discriminate|]. cbn [existsb] in H.
+  destruct (existsb is_disr a) eqn:E.
+  - destruct (IH eq_refl) as [y [Hy Hin]]. exists y. split; [|right; exact Hin].
+    intro c. destruct x; cbn [last_disr]; apply Hy.
+  - destruct x; try discriminate. exists d. split; [|left; reflexivity].
+    intro c. cbn [last_disr]. apply last_disr_none; exact E.
+Qed.
+
+Lemma last_disr_is_none a : last_disr a None = None -> existsb is_disr a = false.
+Proof.
+  intro H. destruct (existsb is_disr a) eqn:E; [|reflexivity].
+  destruct (last_disr_some a E) as [y [Hy _]]. rewrite Hy in H. discriminate.
+Qed.
+
+(* --- norm_acts touches the disruptive projection only --- *)
+Lemma norm_ctls a : ctls_of (norm_acts a) = ctls_of a.
+Proof.
+  unfold norm_acts. destruct (last_disr a None); [|reflexivity]. fold nondisr.
+  rewrite ctls_app, (ctls_filter nondisr nondisr_keeps). apply app_nil_r.
+Qed.
+Lemma norm_flows a : flows_of (norm_acts a) = flows_of a.
+Proof.
+  unfold norm_acts. destruct (last_disr a None); [|reflexivity]. fold nondisr.
+  rewrite flows_app, (flows_filter nondisr nondisr_keeps). apply app_nil_r.
+Qed.
+Lemma norm_status a s : status_of (norm_acts a) s = status_of a s.
+Proof.
+  unfold norm_acts. destruct (last_disr a None); [|reflexivity]. fold nondisr.
+  rewrite status_app, (status_filter nondisr nondisr_keeps). reflexivity.
+Qed.
+Lemma norm_tags a : src_tags (norm_acts a) = src_tags a.
+Proof.
+  unfold norm_acts. destruct (last_disr a None); [|reflexivity]. fold nondisr.
+  rewrite tags_app, (tags_filter nondisr nondisr_keeps). apply app_nil_r.
+Qed.
+Lemma norm_msg a m : src_msg (norm_acts a) m = src_msg a m.
+Proof.
+  unfold norm_acts. destruct (last_disr a None); [|reflexivity]. fold nondisr.
+  rewrite msg_app, (msg_filter nondisr nondisr_keeps). reflexivity.
+Qed.
+
+Lemma mrg_ctls d a : ctls_of (mrg d a) = ctls_of a.
+Proof.
+  destruct d as [x|]; [|reflexivity]. unfold mrg, merge_defaults. fold nonblock.
+  destruct (existsb is_nonblock_disr a); rewrite ?ctls_app, (ctls_filter nonblock nonblock_keeps); [reflexivity|apply app_nil_r].
+Qed.
+Lemma mrg_flows d a : flows_of (mrg d a) = flows_of a.
+Proof.
+  destruct d as [x|]; [|reflexivity]. unfold mrg, merge_defaults. fold nonblock.
+  destruct (existsb is_nonblock_disr a); rewrite ?flows_app, (flows_filter nonblock nonblock_keeps); [reflexivity|apply app_nil_r].
+Qed.
+Lemma mrg_status d a s : status_of (mrg d a) s = status_of a s.
+Proof.
+  destruct d as [x|]; [|reflexivity]. unfold mrg, merge_defaults. fold nonblock.
+  destruct (existsb is_nonblock_disr a); rewrite ?status_app, (status_filter nonblock nonblock_keeps); reflexivity.
+Qed.
+
+Lemma mrg_norm_disrs d a : disrs_of (mrg d (norm_acts a)) = eff_disr d (last_disr a None).
+Proof.
+  unfold norm_acts. destruct (last_disr a None) as [y|] eqn:E.
+  - fold nondisr. destruct d as [x|]; cbn [mrg].
+    + unfold merge_defaults. fold nonblock.
+      assert (existsb is_disr (filter nondisr a) = false) as Hn.
+      { rewrite <- (filter_all (fun _ => true) (filter nondisr a)) by reflexivity. apply no_disr_filter_nondisr. }
+      rewrite existsb_app, filter_app, (no_disr_nonblockdisr _ Hn).
+      destruct y; cbn [existsb is_nonblock_disr is_disr is_block negb andb orb filter nonblock app];
+        rewrite ?disrs_app, (no_disr_disrs nonblock _ Hn); reflexivity.
+    + rewrite disrs_app, disrs_nondisr. destruct y; reflexivity.
+  - pose proof (last_disr_is_none a E) as Hn. destruct d as [x|]; cbn [mrg eff_disr].
+    + unfold merge_defaults. fold nonblock. rewrite (no_disr_nonblockdisr a Hn), disrs_app, (no_disr_disrs nonblock a Hn). reflexivity.
+    + apply no_disr_disrs'; exact Hn.
+Qed.
+
+Lemma apply_actions_closed d acts l :
+  apply_actions d acts l =
+  mkClink (cl_vars l) (cl_op l) (cl_nd l ++ ctls_of acts) (cl_disr l ++ eff_disr d (last_disr acts None))
+          (cl_flow l ++ flows_of acts) (cl_tags l ++ src_tags acts) (src_msg acts (cl_msg l))
+          (status_of acts (cl_status l)).
+Proof.
+  unfold apply_actions. fold (mrg d (norm_acts acts)). rewrite fold_act_closed, fold_meta_closed.
+  cbn [cl_vars cl_op cl_nd cl_disr cl_flow cl_tags cl_msg cl_status].
+  rewrite mrg_ctls, mrg_flows, mrg_status, mrg_norm_disrs, norm_ctls, norm_flows, norm_status, norm_tags, norm_msg.
+  reflexivity.
+Qed.
+
+Lemma compile_link_tags d h : cl_tags (compile_link d h) = src_tags (ls_actions h).
+Proof. unfold compile_link. rewrite apply_actions_closed. reflexivity. Qed.
+Lemma compile_link_msg d h : cl_msg (compile_link d h) = src_msg (ls_actions h) None.
+Proof. unfold compile_link. rewrite apply_actions_closed. reflexivity. Qed.
+
+Lemma set_vars_apply d acts l vs : apply_actions d acts (set_vars l vs) = set_vars (apply_actions d acts l) vs.
+Proof. rewrite !apply_actions_closed. reflexivity. Qed.
+
+(* L1: the rule written with the added targets *)
+Lemma compile_link_add_targets d items h :
+  compile_link d (src_add_targets items h) = update_target items (compile_link d h).
+Proof.
+  unfold compile_link, update_target, src_add_targets. cbn [ls_targets ls_op ls_actions].
+  rewrite !set_vars_apply. unfold set_vars at 1 3 4.
+  cbn [cl_vars cl_op cl_nd cl_disr cl_flow cl_tags cl_msg cl_status].
+  unfold parse_targets. rewrite fold_left_app. reflexivity.
+Qed.
+
+Definition no_block (acts : list action) : bool := forallb nonblock acts.
+
+(* L2: the rule written with the new actions (no "block" among them) *)
+Lemma compile_link_add_actions d acts h :
+  no_block acts = true ->
+  compile_link d (src_add_actions acts h) = update_action acts (compile_link d h).
+Proof.
+  intro Hnb. unfold compile_link, update_action, src_add_actions. cbn [ls_targets ls_op ls_actions].
+  set (l0 := set_vars (empty_link (Some (ls_op h))) (parse_targets (ls_targets h) [])).
+  set (O := ls_actions h). fold nondisr.
+  destruct (existsb is_disr acts) eqn:Hd.
+  - (* the update names a disruptive action: the old ones are replaced *)
+    destruct (last_disr_some acts Hd) as [y [Hy Hin]].
+    assert (y <> DBlock) as Hyb.
+    { intro E. subst y. unfold no_block in Hnb. rewrite forallb_forall in Hnb. specialize (Hnb _ Hin). discriminate. }
+    rewrite !apply_actions_closed. unfold clear_disr.
+    cbn [cl_vars cl_op cl_nd cl_disr cl_flow cl_tags cl_msg cl_status].
+    rewrite last_disr_app, !Hy.
+    rewrite ctls_app, flows_app, status_app, tags_app, msg_app.
+    rewrite (ctls_filter nondisr nondisr_keeps), (flows_filter nondisr nondisr_keeps),
+            (status_filter nondisr nondisr_keeps), (tags_filter nondisr nondisr_keeps), (msg_filter nondisr nondisr_keeps).
+    subst l0. cbn [set_vars empty_link cl_vars cl_op cl_nd cl_disr cl_flow cl_tags cl_msg cl_status app].
+    replace (eff_disr d (Some y)) with [y] by (destruct y, d; try reflexivity; contradiction).
+    replace (eff_disr None (Some y)) with [y] by (destruct y; reflexivity).
+    reflexivity.
+  - (* no disruptive action in the update: everything is written after the existing actions *)
+    rewrite !apply_actions_closed. cbn [cl_vars cl_op cl_nd cl_disr cl_flow cl_tags cl_msg cl_status].
+    rewrite last_disr_app, !(last_disr_none acts _ Hd).
+    rewrite ctls_app, flows_app, status_app, tags_app, msg_app, <- !app_assoc.
+    cbn [eff_disr]. rewrite app_nil_r. reflexivity.
+Qed.
+
 (* ================= removal ================= *)
 
 Lemma del_first_filter n rs : n <> 0 -> uniq rs ->
@@ -185,42 +481,6 @@ Qed.
 Lemma compile_item_id dflt it :
   cr_id (compile_item dflt it) = match it with SRule id _ _ _ => id | SMarker _ => 0 end.
 Proof. destruct it; reflexivity. Qed.
-
-(* ---- metadata of a compiled link in closed form ---- *)
-
-Definition tags_of (acts : list action) : list bytes := src_tags acts.
-
-Lemma fold_meta_tags acts : forall l, cl_tags (fold_left meta_step acts l) = cl_tags l ++ src_tags acts.
-Proof.
-  induction acts as [|a acts IH]; intro l; cbn [fold_left src_tags]; [rewrite app_nil_r; reflexivity|].
-  rewrite IH. destruct a; cbn [meta_step cl_tags]; try reflexivity. rewrite <- app_assoc. reflexivity.
-Qed.
-
-Lemma fold_meta_msg acts : forall l, cl_msg (fold_left meta_step acts l) = src_msg acts (cl_msg l).
-Proof.
-  induction acts as [|a acts IH]; intro l; cbn [fold_left src_msg]; [reflexivity|].
-  rewrite IH. destruct a; reflexivity.
-Qed.
-
-Lemma act_step_tags l a : cl_tags (act_step l a) = cl_tags l.
-Proof. destruct a; reflexivity. Qed.
-Lemma act_step_msg l a : cl_msg (act_step l a) = cl_msg l.
-Proof. destruct a; reflexivity. Qed.
-
-Lemma fold_act_tags acts : forall l, cl_tags (fold_left act_step acts l) = cl_tags l.
-Proof. induction acts as [|a acts IH]; intro l; cbn [fold_left]; [reflexivity|]. rewrite IH. apply act_step_tags. Qed.
-Lemma fold_act_msg acts : forall l, cl_msg (fold_left act_step acts l) = cl_msg l.
-Proof. induction acts as [|a acts IH]; intro l; cbn [fold_left]; [reflexivity|]. rewrite IH. apply act_step_msg. Qed.
-
-Lemma apply_actions_tags d acts l : cl_tags (apply_actions d acts l) = cl_tags l ++ src_tags acts.
-Proof. unfold apply_actions. rewrite fold_act_tags. apply fold_meta_tags. Qed.
-Lemma apply_actions_msg d acts l : cl_msg (apply_actions d acts l) = src_msg acts (cl_msg l).
-Proof. unfold apply_actions. rewrite fold_act_msg. apply fold_meta_msg. Qed.
-
-Lemma compile_link_tags d h : cl_tags (compile_link d h) = src_tags (ls_actions h).
-Proof. unfold compile_link. rewrite apply_actions_tags. reflexivity. Qed.
-Lemma compile_link_msg d h : cl_msg (compile_link d h) = src_msg (ls_actions h) None.
-Proof. unfold compile_link. rewrite apply_actions_msg. reflexivity. Qed.
 
 Lemma zero_free_specs l : forallb spec_zero_free l = true -> specs_have l 0 = false.
 Proof.
@@ -363,226 +623,6 @@ Proof.
   apply andb_true_iff in Hz as [Hz1 Hz]. rewrite (IH _ Hz Hg). f_equal.
   unfold spec_map. apply (compile_src_upd dflt (spec_has sp) g f src); [|exact Hg].
   unfold spec_zero_free in Hz1. apply negb_true_iff in Hz1. exact Hz1.
-Qed.
-
-(* ================= links: closed form of applyParsedActions ================= *)
-
-Definition ctls_of (acts : list action) : list ctl :=
-  flat_map (fun a => match a with ACtl c => [c] | _ => [] end) acts.
-Definition disrs_of (acts : list action) : list disr :=
-  flat_map (fun a => match a with ADisr d => [d] | _ => [] end) acts.
-Definition flows_of (acts : list action) : list bytes :=
-  flat_map (fun a => match a with ASkipAfter m => [m] | _ => [] end) acts.
-Fixpoint status_of (acts : list action) (cur : N) : N :=
-  match acts with
-  | [] => cur
-  | AStatus n :: r => status_of r n
-  | _ :: r => status_of r cur
-  end.
-
-Definition mrg (d : option disr) (acts : list action) : list action :=
-  match d with None => acts | Some x => merge_defaults acts x end.
-
-Lemma fold_act_closed acts : forall l,
-  fold_left act_step acts l =
-  mkClink (cl_vars l) (cl_op l) (cl_nd l ++ ctls_of acts) (cl_disr l ++ disrs_of acts)
-          (cl_flow l ++ flows_of acts) (cl_tags l) (cl_msg l) (status_of acts (cl_status l)).
-Proof.
-  induction acts as [|a acts IH]; intro l.
-  - cbn. rewrite !app_nil_r. destruct l; reflexivity.
-  - cbn [fold_left]. rewrite IH.
-    destruct a; cbn [act_step cl_vars cl_op cl_nd cl_disr cl_flow cl_tags cl_msg cl_status
-                     ctls_of disrs_of flows_of flat_map status_of app];
-      rewrite <- ?app_assoc; reflexivity.
-Qed.
-
-Lemma fold_meta_closed acts : forall l,
-  fold_left meta_step acts l =
-  mkClink (cl_vars l) (cl_op l) (cl_nd l) (cl_disr l) (cl_flow l)
-          (cl_tags l ++ src_tags acts) (src_msg acts (cl_msg l)) (cl_status l).
-Proof.
-  induction acts as [|a acts IH]; intro l.
-  - cbn. rewrite app_nil_r. destruct l; reflexivity.
-  - cbn [fold_left]. rewrite IH.
-    destruct a; cbn [meta_step cl_vars cl_op cl_nd cl_disr cl_flow cl_tags cl_msg cl_status src_tags src_msg];
-      rewrite <- ?app_assoc; reflexivity.
-Qed.
-
-Lemma apply_actions_closed d acts l :
-  apply_actions d acts l =
-  mkClink (cl_vars l) (cl_op l) (cl_nd l ++ ctls_of (mrg d acts)) (cl_disr l ++ disrs_of (mrg d acts))
-          (cl_flow l ++ flows_of (mrg d acts)) (cl_tags l ++ src_tags acts) (src_msg acts (cl_msg l))
-          (status_of (mrg d acts) (cl_status l)).
-Proof.
-  unfold apply_actions. fold (mrg d acts). rewrite fold_act_closed, fold_meta_closed. reflexivity.
-Qed.
-
-(* --- list algebra of the projections --- *)
-Lemma ctls_app a b : ctls_of (a ++ b) = ctls_of a ++ ctls_of b.
-Proof. apply flat_map_app. Qed.
-Lemma disrs_app a b : disrs_of (a ++ b) = disrs_of a ++ disrs_of b.
-Proof. apply flat_map_app. Qed.
-Lemma flows_app a b : flows_of (a ++ b) = flows_of a ++ flows_of b.
-Proof. apply flat_map_app. Qed.
-Lemma status_app a : forall b s, status_of (a ++ b) s = status_of b (status_of a s).
-Proof. induction a as [|x a IH]; intros b s; [reflexivity|]. destruct x; cbn [app status_of]; apply IH. Qed.
-Lemma tags_app a b : src_tags (a ++ b) = src_tags a ++ src_tags b.
-Proof. induction a as [|x a IH]; [reflexivity|]. destruct x; cbn [app src_tags]; rewrite ?IH; reflexivity. Qed.
-Lemma msg_app a : forall b m, src_msg (a ++ b) m = src_msg b (src_msg a m).
-Proof. induction a as [|x a IH]; intros b m; [reflexivity|]. destruct x; cbn [app src_msg]; apply IH. Qed.
-
-(* filtering out (some) disruptive actions changes only the disruptive projection *)
-Section FilterDisr.
-Variable p : action -> bool.
-Hypothesis p_keeps : forall a, is_disr a = false -> p a = true.
-
-Lemma ctls_filter a : ctls_of (filter p a) = ctls_of a.
-Proof.
-  induction a as [|x a IH]; [reflexivity|]. cbn [filter].
-  destruct (p x) eqn:E; cbn [ctls_of flat_map]; fold (ctls_of a); fold (ctls_of (filter p a)); rewrite IH; [reflexivity|].
-  destruct x; try (rewrite p_keeps in E by reflexivity; discriminate). reflexivity.
-Qed.
-Lemma flows_filter a : flows_of (filter p a) = flows_of a.
-Proof.
-  induction a as [|x a IH]; [reflexivity|]. cbn [filter].
-  destruct (p x) eqn:E; cbn [flows_of flat_map]; fold (flows_of a); fold (flows_of (filter p a)); rewrite IH; [reflexivity|].
-  destruct x; try (rewrite p_keeps in E by reflexivity; discriminate). reflexivity.
-Qed.
-Lemma status_filter a : forall s, status_of (filter p a) s = status_of a s.
-Proof.
-  induction a as [|x a IH]; intro s; [reflexivity|]. cbn [filter].
-  destruct (p x) eqn:E.
-  - destruct x; cbn [status_of]; apply IH.
-  - destruct x; try (rewrite p_keeps in E by reflexivity; discriminate). cbn [status_of]. apply IH.
-Qed.
-Lemma tags_filter a : src_tags (filter p a) = src_tags a.
-Proof.
-  induction a as [|x a IH]; [reflexivity|]. cbn [filter].
-  destruct (p x) eqn:E.
-  - destruct x; cbn [src_tags]; rewrite IH; reflexivity.
-  - destruct x; try (rewrite p_keeps in E by reflexivity; discriminate). cbn [src_tags]. apply IH.
-Qed.
-Lemma msg_filter a : forall m, src_msg (filter p a) m = src_msg a m.
-Proof.
-  induction a as [|x a IH]; intro m; [reflexivity|]. cbn [filter].
-  destruct (p x) eqn:E.
-  - destruct x; cbn [src_msg]; apply IH.
-  - destruct x; try (rewrite p_keeps in E by reflexivity; discriminate). cbn [src_msg]. apply IH.
-Qed.
-End FilterDisr.
-
-Definition nonblock (a : action) : bool := negb (is_block a).
-Definition nondisr (a : action) : bool := negb (is_disr a).
-
-Lemma nonblock_keeps a : is_disr a = false -> nonblock a = true.
-Proof. destruct a as [| | |[]| | |]; cbn; congruence. Qed.
-Lemma nondisr_keeps a : is_disr a = false -> nondisr a = true.
-Proof. unfold nondisr. intro H; rewrite H; reflexivity. Qed.
-
-Lemma disrs_nondisr a : disrs_of (filter nondisr a) = [].
-Proof.
-  induction a as [|x a IH]; [reflexivity|]. cbn [filter]. destruct x; cbn [nondisr is_disr negb disrs_of flat_map app]; exact IH.
-Qed.
-
-Lemma no_disr_disrs p a : existsb is_disr a = false -> disrs_of (filter p a) = [].
-Proof.
-  induction a as [|x a IH]; intro H; [reflexivity|]. cbn [existsb] in H. apply orb_false_iff in H as [H1 H2].
-  cbn [filter]. destruct (p x); [|apply IH; exact H2].
-  destruct x; try discriminate; cbn [disrs_of flat_map app]; apply IH; exact H2.
-Qed.
-
-Lemma no_disr_disrs' a : existsb is_disr a = false -> disrs_of a = [].
-Proof. intro H. rewrite <- (filter_all (fun _ => true) a) by reflexivity. apply no_disr_disrs; exact H. Qed.
-
-Lemma no_disr_nonblockdisr a : existsb is_disr a = false -> existsb is_nonblock_disr a = false.
-Proof.
-  induction a as [|x a IH]; intro H; [reflexivity|]. cbn [existsb] in *. apply orb_false_iff in H as [H1 H2].
-  unfold is_nonblock_disr at 1. rewrite H1, (IH H2). reflexivity.
-Qed.
-
-Lemma mrg_ctls d a : ctls_of (mrg d a) = ctls_of a.
-Proof.
-  destruct d as [x|]; [|reflexivity]. unfold mrg, merge_defaults. fold nonblock.
-  destruct (existsb is_nonblock_disr a); rewrite ?ctls_app, (ctls_filter nonblock nonblock_keeps); [reflexivity|apply app_nil_r].
-Qed.
-Lemma mrg_flows d a : flows_of (mrg d a) = flows_of a.
-Proof.
-  destruct d as [x|]; [|reflexivity]. unfold mrg, merge_defaults. fold nonblock.
-  destruct (existsb is_nonblock_disr a); rewrite ?flows_app, (flows_filter nonblock nonblock_keeps); [reflexivity|apply app_nil_r].
-Qed.
-Lemma mrg_status d a s : status_of (mrg d a) s = status_of a s.
-Proof.
-  destruct d as [x|]; [|reflexivity]. unfold mrg, merge_defaults. fold nonblock.
-  destruct (existsb is_nonblock_disr a); rewrite ?status_app, (status_filter nonblock nonblock_keeps); reflexivity.
-Qed.
-
-Lemma set_vars_apply d acts l vs : apply_actions d acts (set_vars l vs) = set_vars (apply_actions d acts l) vs.
-Proof. rewrite !apply_actions_closed. reflexivity. Qed.
-
-Lemma apply_actions_vars d acts l : cl_vars (apply_actions d acts l) = cl_vars l.
-Proof. rewrite apply_actions_closed. reflexivity. Qed.
-
-(* L1: the rule written with the added targets *)
-Lemma compile_link_add_targets d items h :
-  compile_link d (src_add_targets items h) = update_target items (compile_link d h).
-Proof.
-  unfold compile_link, update_target, src_add_targets. cbn [ls_targets ls_op ls_actions].
-  rewrite !set_vars_apply. unfold set_vars at 1 3 4.
-  cbn [cl_vars cl_op cl_nd cl_disr cl_flow cl_tags cl_msg cl_status].
-  unfold parse_targets. rewrite fold_left_app. reflexivity.
-Qed.
-
-Definition no_block (acts : list action) : bool := forallb nonblock acts.
-
-Lemma exists_nonblock_app a b :
-  existsb is_nonblock_disr (a ++ b) = existsb is_nonblock_disr a || existsb is_nonblock_disr b.
-Proof. apply existsb_app. Qed.
-
-Lemma has_disr_no_block a : existsb is_disr a = true -> no_block a = true -> existsb is_nonblock_disr a = true.
-Proof.
-  induction a as [|x a IH]; intros H1 H2; [discriminate|]. cbn [existsb no_block forallb] in *.
-  apply andb_true_iff in H2 as [H2 H3]. unfold is_nonblock_disr at 1. unfold nonblock in H2. rewrite H2, andb_true_r.
-  destruct (is_disr x); [reflexivity|]. cbn [orb] in *. apply IH; assumption.
-Qed.
-
-(* L2: the rule written with the new actions (no "block" among them) *)
-Lemma compile_link_add_actions d acts h :
-  no_block acts = true ->
-  compile_link d (src_add_actions acts h) = update_action acts (compile_link d h).
-Proof.
-  intro Hnb. unfold compile_link, update_action, src_add_actions. cbn [ls_targets ls_op ls_actions].
-  set (l0 := set_vars (empty_link (Some (ls_op h))) (parse_targets (ls_targets h) [])).
-  set (O := ls_actions h).
-  destruct (existsb is_disr acts) eqn:Hd.
-  - (* the update names a disruptive action: the old ones are replaced *)
-    fold nondisr. rewrite !apply_actions_closed. unfold clear_disr.
-    cbn [cl_vars cl_op cl_nd cl_disr cl_flow cl_tags cl_msg cl_status mrg].
-    assert (disrs_of (mrg d (filter nondisr O ++ acts)) = disrs_of acts) as Ed.
-    { destruct d as [x|]; cbn [mrg].
-      - unfold merge_defaults. rewrite exists_nonblock_app, (has_disr_no_block acts Hd Hnb), orb_true_r.
-        fold nonblock. rewrite filter_app, disrs_app.
-        rewrite (no_disr_disrs nonblock (filter nondisr O)).
-        + cbn [app]. rewrite (filter_all nonblock acts); [reflexivity|].
-          intros y Hy. unfold no_block in Hnb. rewrite forallb_forall in Hnb. apply Hnb; exact Hy.
-        + clear. induction O as [|y O' IH]; [reflexivity|]. cbn [filter]. destruct y; cbn [nondisr is_disr negb existsb orb]; exact IH.
-      - rewrite disrs_app, disrs_nondisr. reflexivity. }
-    rewrite !mrg_ctls, !mrg_flows, !mrg_status, Ed.
-    rewrite ctls_app, flows_app, status_app, tags_app, msg_app.
-    rewrite (ctls_filter nondisr nondisr_keeps), (flows_filter nondisr nondisr_keeps),
-            (status_filter nondisr nondisr_keeps), (tags_filter nondisr nondisr_keeps), (msg_filter nondisr nondisr_keeps).
-    subst l0. cbn [set_vars empty_link cl_vars cl_op cl_nd cl_disr cl_flow cl_tags cl_msg cl_status app].
-    reflexivity.
-  - (* no disruptive action in the update: everything is written after the existing actions *)
-    rewrite !apply_actions_closed. cbn [cl_vars cl_op cl_nd cl_disr cl_flow cl_tags cl_msg cl_status mrg].
-    assert (disrs_of (mrg d (O ++ acts)) = disrs_of (mrg d O) ++ disrs_of acts) as Ed.
-    { rewrite (no_disr_disrs' acts Hd), app_nil_r. destruct d as [x|]; cbn [mrg].
-      - unfold merge_defaults. rewrite exists_nonblock_app, (no_disr_nonblockdisr acts Hd), orb_false_r.
-        fold nonblock. rewrite filter_app.
-        destruct (existsb is_nonblock_disr O); rewrite !disrs_app, (no_disr_disrs nonblock acts Hd); rewrite ?app_nil_r; reflexivity.
-      - rewrite disrs_app, (no_disr_disrs' acts Hd), app_nil_r. reflexivity. }
-    rewrite !mrg_ctls, !mrg_flows, !mrg_status, Ed.
-    rewrite ctls_app, flows_app, status_app, tags_app, msg_app, <- !app_assoc.
-    reflexivity.
 Qed.
 
 (* ================= C17_update_target_equiv / C17_update_action_equiv ================= *)
@@ -1507,4 +1547,48 @@ Example update_action_guard_instance :
 Proof.
   eexists. eexists. split; [vm_compute; reflexivity|]. split; [reflexivity|]. split; [reflexivity|].
   split; vm_compute; reflexivity.
+Qed.
+
+(* ================= the rest of the transaction after the ctl ================= *)
+Lemma cf_run_rest rx rules rq : cf_run rx rules rq = cf_rest rx rules rules 1 [2] rq st_init.
+Proof. reflexivity. Qed.
+
+Theorem ctl_remove_equiv_rest rx all c st rs ph phs rq :
+  is_rm_ctl c = true ->
+  obs (cf_rest rx all rs ph phs rq (cf_ctl_step all c st))
+  = obs (cf_rest rx (allP all (rm_set all c)) (filter (keepP (rm_set all c)) rs) ph phs rq st).
+Proof.
+  intro Hc. apply same_obs_obs. unfold cf_rest.
+  set (P := rm_set all c).
+  assert (Rel (RXrm P) (cf_ctl_step all c st) st) as H0.
+  { split; [apply rm_ctl_initial; exact Hc|]. unfold same_obs.
+    rewrite ctl_step_skip, ctl_step_intr, ctl_step_matched. auto. }
+  pose proof (Rel_set_skip (RXrm P) (RXrm_frame P) [] _ _ (rm_sim_list rx all P ph rq rs _ _ H0)) as H1.
+  revert H1. generalize (st_set_skip [] (eval_list rx all rs ph rq (cf_ctl_step all c st))).
+  generalize (st_set_skip [] (eval_list rx (allP all P) (filter (keepP P) rs) ph rq st)).
+  induction phs as [|p phs IH]; intros s2 s1 H; cbn [fold_left]; [exact (proj2 H)|].
+  apply IH. pose proof H as [_ [_ [B _]]]. rewrite <- B. destruct (st_intr s1); [exact H|].
+  unfold eval_phase. apply (Rel_set_skip (RXrm P) (RXrm_frame P)).
+  apply (rm_sim_list rx all P p rq all). exact H.
+Qed.
+
+Theorem ctl_target_equiv_rest rx all c st rs ph phs rq :
+  is_tgt_ctl c = true ->
+  obs (cf_rest rx all rs ph phs rq (cf_ctl_step all c st))
+  = obs (cf_rest rx (allT all (tgt_ids all c) (tgt_var c) (tgt_exc c))
+                 (map (rwT (tgt_ids all c) (tgt_var c) (tgt_exc c)) rs) ph phs rq st).
+Proof.
+  intro Hc. apply same_obs_obs. unfold cf_rest.
+  set (ids := tgt_ids all c). set (v := tgt_var c). set (e := tgt_exc c).
+  assert (Rel (RXt rx ids v e) (cf_ctl_step all c st) st) as H0.
+  { split; [apply tgt_ctl_initial; exact Hc|]. unfold same_obs.
+    rewrite ctl_step_skip, ctl_step_intr, ctl_step_matched. auto. }
+  pose proof (Rel_set_skip (RXt rx ids v e) (RXt_frame rx ids v e) [] _ _
+                (tgt_sim_list rx all ids v e ph rq rs _ _ H0)) as H1.
+  revert H1. generalize (st_set_skip [] (eval_list rx all rs ph rq (cf_ctl_step all c st))).
+  generalize (st_set_skip [] (eval_list rx (allT all ids v e) (map (rwT ids v e) rs) ph rq st)).
+  induction phs as [|p phs IH]; intros s2 s1 H; cbn [fold_left]; [exact (proj2 H)|].
+  apply IH. pose proof H as [_ [_ [B _]]]. rewrite <- B. destruct (st_intr s1); [exact H|].
+  unfold eval_phase. apply (Rel_set_skip (RXt rx ids v e) (RXt_frame rx ids v e)).
+  apply (tgt_sim_list rx all ids v e p rq all). exact H.
 Qed.
